@@ -381,7 +381,18 @@ class Ctx(Part):
             return
         with mp.get_context("fork").Pool(nproc) as pool:
             hostile = pool.map_async(_call_hostile, [(fn, c, kw, i) for i, c in enumerate(sample)], chunksize=1) if sample else None
-            for p in pool.imap(_call, [(fn, c, kw) for c in chunks], chunksize=1):
+            # a worker killed from outside (out of memory) makes multiprocessing.Pool wait for ever: every result is awaited with a
+            # timeout, and a lost job is a failure of the run (exit 2 through a harness failure), never a hang
+            it = pool.imap(_call, [(fn, c, kw) for c in chunks], chunksize=1)
+            limit = float(os.environ.get("VERIF_JOB_TIMEOUT", "3600"))
+            for i in range(len(chunks)):
+                try:
+                    p = it.next(timeout=limit)
+                except mp.TimeoutError:
+                    self.fail("harness:job-lost", "no result for job %d of %s within %.0f s (worker killed or hung); the run is incomplete" % (i, fn.__name__, limit), {"kind": "harness"})
+                    self.cap("job %d of %s lost" % (i, fn.__name__))
+                    pool.terminate()
+                    return
                 self.merge(p)
             if hostile is not None:
                 for p in hostile.get():
